@@ -4,7 +4,7 @@
    Constant, no other Extract Inductive. *)
 Require Extraction.
 Require Import ExtrOcamlBasic.
-From FV Require Import Base.Serial Session.Window Link.SenderCredit Base.Bytes Codec.Value Codec.Enc Codec.Dec Codec.Spec Frame.Transfer Lib.LengthDelimited Session.Disposition Lib.Slab Session.Ids Conn.Lifecycle Conn.Timers Link.Receiver.
+From FV Require Import Base.Serial Session.Window Link.SenderCredit Base.Bytes Codec.Value Codec.Enc Codec.Dec Codec.Spec Frame.Transfer Lib.LengthDelimited Session.Disposition Lib.Slab Session.Ids Conn.Lifecycle Conn.Timers Link.Receiver Session.SessLife.
 Extraction Language OCaml.
 Separate Extraction
   Window.run Window.step Window.begun_for_oracle
@@ -15,4 +15,5 @@ Separate Extraction
   Ids.lstep Ids.ls_init Ids.cstep Ids.cn_init
   Lifecycle.step
   Timers.tstep Timers.tinit Timers.advertised
-  Receiver.rstep Receiver.rinit.
+  Receiver.rstep Receiver.rinit
+  SessLife.sstep.
